@@ -1070,6 +1070,11 @@ func (env *Env) callExpr(e *Expr, pol int) Value {
 		if x.one().Sort == F64Sort {
 			return intVal(UF("conv.f2i."+map[string]string{"int": "int", "int64": "int64"}[name], IntSort, x.one()))
 		}
+		if name == "uint" {
+			// the program's conversion to an unsigned type wraps; the specification's does the same, so that
+			// uint(e) names the key the program computes for e
+			return intVal(wrapInt(x.one(), types.Typ[types.Uint], false))
+		}
 		return intVal(x.one())
 	case "float64":
 		x := env.compile(e.Args[0], 0)
@@ -1469,17 +1474,17 @@ func specCallKey(fn *ssa.Function, args []Value, st *State) string {
 	for _, a := range args {
 		sb.WriteByte('|')
 		for _, c := range a.C {
-			fmt.Fprintf(&sb, "%d,", c.id)
+			fmt.Fprintf(&sb, "%x,", c.shash)
 		}
 	}
-	fmt.Fprintf(&sb, "|wm%d|b%d", st.wm.id, st.heap.base.id)
+	fmt.Fprintf(&sb, "|wm%x|b%d", st.wm.shash, st.heap.base.id)
 	ks := make([]string, 0, len(st.heap.m))
 	for k := range st.heap.m {
 		ks = append(ks, k)
 	}
 	sort.Strings(ks)
 	for _, k := range ks {
-		fmt.Fprintf(&sb, "|%s=%d", k, st.heap.m[k].id)
+		fmt.Fprintf(&sb, "|%s=%x", k, st.heap.m[k].shash)
 	}
 	h := fnv.New64a()
 	h.Write([]byte(sb.String()))
